@@ -273,10 +273,27 @@ def a10(repo: Repo) -> RuleResult:
     # CFormatter._op_mode_big_endian: set, and reset in finally
     try:
         fi = m.func("impls/c/formatter.py", "CFormatter.format_op_mode_message_endian")
-        sets = [n for n in ast.walk(fi.node) if isinstance(n, ast.Assign) and src_of(n.targets[0]) == "self._op_mode_big_endian"]
-        trs = [n for n in ast.walk(fi.node) if isinstance(n, ast.Try)]
+        # the function itself, or the @contextmanager methods it enters with `with self.<cm>(...)`
+        scopes = [fi.node]
+        cf = m.cls("CFormatter", "impls/c/formatter.py")
+        for w in ast.walk(fi.node):
+            if isinstance(w, ast.With):
+                for it_ in w.items:
+                    ce = it_.context_expr
+                    if isinstance(ce, ast.Call) and isinstance(ce.func, ast.Attribute) and isinstance(ce.func.value, ast.Name) and ce.func.value.id == "self":
+                        cmf = m.lookup(cf, ce.func.attr)
+                        if cmf is not None and any("contextmanager" in src_of(d_) for d_ in cmf.node.decorator_list):
+                            scopes.append(cmf.node)
+        sets = [n for sc in scopes for n in ast.walk(sc) if isinstance(n, ast.Assign) and src_of(n.targets[0]) == "self._op_mode_big_endian"]
         res.inst(part="endian-flag", sets=[src_of(s) for s in sets])
-        ok = len(trs) == 1 and any(isinstance(s, ast.Assign) and src_of(s) == "self._op_mode_big_endian = False" for s in trs[0].finalbody)
+        ok = False
+        for sc in scopes:
+            for tr in [n for n in ast.walk(sc) if isinstance(n, ast.Try)]:
+                resets = any(isinstance(s, ast.Assign) and src_of(s) == "self._op_mode_big_endian = False" for s in tr.finalbody)
+                # the work (the formatting calls, or the yield that stands for the with-body) is inside the try
+                covers = any(isinstance(x, (ast.Yield, ast.Call)) for b_ in tr.body for x in ast.walk(b_))
+                if resets and covers:
+                    ok = True
         if not ok:
             res.bad(Finding("A10", fi.rel, fi.node.lineno, fi.qual, "", "the big-endian mode flag is not reset in a finally block: after an error the next message is rendered in the wrong variant", tag="endian-flag:reset"))
         if not all(src_of(s.targets[0]).startswith("self.") for s in sets):
@@ -349,6 +366,17 @@ def t1(repo: Repo) -> RuleResult:
                             why = "the step is a variable and rule E1 (step >= 1) is not available"
                     else:
                         why = f"step `{src_of(step)}` is not a positive constant"
+            # descent of the type structure: while isinstance(x, (Alias, Enum)): x = x.type
+            if not ok and isinstance(t, ast.Call) and isinstance(t.func, ast.Name) and t.func.id == "isinstance" and len(t.args) == 2 and isinstance(t.args[0], ast.Name):
+                v_ = t.args[0].id
+                writes = [x for x in ast.walk(n) if isinstance(x, (ast.Assign, ast.AugAssign, ast.AnnAssign)) and any(isinstance(tt, ast.Name) and tt.id == v_ for tt in (x.targets if isinstance(x, ast.Assign) else [x.target]))]
+                descends = [x for x in writes if isinstance(x, ast.Assign) and isinstance(x.value, ast.Attribute) and isinstance(x.value.value, ast.Name) and x.value.value.id == v_ and x.value.attr in ("type", "element_type")]
+                top = [x for x in n.body if x in descends]
+                if writes and len(writes) == len(descends) and top and not any(isinstance(x, ast.Continue) for x in ast.walk(n)):
+                    ok = True
+                    res.inst(part="while", where=fi.qual, test=src_of(t), descends="each iteration replaces the variable by the type it refers to; types refer only to earlier, completed definitions (B5), so the chain is finite")
+                else:
+                    why = "the loop tests the class of a variable that is not replaced by its .type / .element_type on every iteration"
             if not ok:
                 f = Finding("T1", fi.rel, n.lineno, fi.qual, src_of(t), f"this loop may not terminate: {why}", witness="an input that takes the non-advancing path hangs the compiler", tag=f"{fi.qual}:while")
                 res.bad(f)
